@@ -17,7 +17,7 @@ TYPES.append(_t(19, "struct"))
 for i in IFACES:
     TYPES.append(_t(i, "iface", -1, [i] if i != 20 else [20, 24]))
 TYPES.append(_t(23, "iface", -1, [20, 22, 23, 24]))   # I3 = interface{ MI0(); MI2() }
-TYPES.append(_t(25, "struct", isErr=True))       # VErr: an error type with a value receiver (never nil); programs using it are outside the model
+TYPES.append(_t(25, "struct", isErr=True))       # VErr: an error type with a value receiver (never nil): every call fails (Ctx.forced); outside the model only under DryRun
 TYPES.append(_t(24, "iface", -1, [20, 24]))           # I0x = interface{ MI0() }: another type with the method set of I0
 for n in range(8):
     TYPES.append(_t(30 + n, "slice", 10 + n))
